@@ -68,6 +68,7 @@ def disjuncts(t):
 
 def run(ctx, R):
     F = ctx.facts()
+    submit_writes(F, R)
     R.rule("RF9 specifier/priority/protected-atom tables; RF3 validators before '$op'; RF10 op_declaration; RF1 priority-0 filter; RF3 direct-lookup guard")
     text = open(os.path.join(REPO, "src/lib/builtins.pl")).read()
     cl = {}
@@ -241,3 +242,26 @@ def run(ctx, R):
     R.ob("C43:current_op:direct-lookup-needs-all-bound", guard_ok,
          "the branch that converts specifier and name cells to atoms must be reached only when priority, specifier and name are all bound; "
          "otherwise current_op(200, S, O) reads an unbound cell as an atom and fails", F.where(gn))
+
+
+def submit_writes(F, R):
+    """op/3 "succeeds exactly when afterwards current_op/3 holds": OpDecl::submit may return Ok only after it has written
+    the declaration into the table (RF3 dominance over its MIR CFG) — a shortcut that answers Ok without writing leaves
+    the previous specifier in place."""
+    from .core import CFG, callee_of
+    sb = [p for p, it in F.items.items() if p.endswith("OpDecl::submit") and it["file"] == "src/forms.rs"]
+    if len(sb) != 1:
+        raise AnchorLost("OpDecl::submit: %s" % sb)
+    m = F.mir(sb[0])
+    cfg = CFG(m)
+    ins = set(cfg.call_blocks(lambda t: re.search(r"OpDecl::insert_into_op_dir$|IndexMap::<.*>::insert$", callee_of(t))))
+    if not ins:
+        raise AnchorLost("OpDecl::submit no longer calls insert_into_op_dir")
+    dom = cfg.dominators()
+    oks = [i for i, b in enumerate(cfg.blocks) for s in b["s"] if s["l"] == [0] and s["rv"]["k"] == "Aggregate" and s["rv"].get("variant") == "Ok"]
+    if not oks:
+        raise AnchorLost("OpDecl::submit: no Ok return found")
+    bad = [i for i in oks if i in dom and not (dom[i] & ins)]
+    R.ob("C43:submit:accepted-declaration-is-written", not bad,
+         "OpDecl::submit returns Ok on a path that does not write the declaration into the operator table (block(s) %s): op(700,xfx,foo), op(700,xfy,foo) then succeeds "
+         "while current_op/3 and the reader still see xfx" % bad, F.where(sb[0]))
